@@ -279,6 +279,18 @@ func c04More(c *Ctx) {
 		c.Guarded(fn, "clear the peer's proposal flag", StoreTo(`^&ps\.PRS\.Proposal$`), G("the message is newer", Cmp(`^call:consensus\.CompareHRS\(.*\)$`, ">", `^const:0$`)))
 	}
 	c04Constructors(c)
+	c04Gossip(c)
+	tickerBeforeReplay(c)
+	// a part set filled with a part that does not belong to its slot can never be completed
+	addPartRules(c)
+	// what consensus sends is what arrives: a proposal or vote that loses a signed field in transit fails its signature
+	// check at every receiver (wire codecs of the gossiped types, group owned by C13)
+	for _, s := range blockCodecs {
+		switch s.Name {
+		case "Proposal", "Vote", "Part", "BlockID", "PartSetHeader":
+			c.codecPair(s)
+		}
+	}
 	c04InitialHeight(c)
 	// a stale lock must be released by a later polka, including one that completes in the current round
 	lockRules(c)
